@@ -436,8 +436,17 @@ fn hook_case(o: &mut Outcome, hc: &HookCase, tag: &str) {
             }
         }
     }
+    // the model driver finds the real function's nested `format_derive` result by the text of the run's first attribute:
+    // two derive attributes with the same text that head different runs cannot be told apart there (tooling limit,
+    // DESIGN 10.3); such a list is judged by the exact-text oracle below only
+    let ambiguous = rec.attrs.iter().enumerate().any(|(i, a)| a.kind == 'd' && rec.attrs[i + 1..].iter().any(|x| x.kind == 'd' && x.snippet == a.snippet && (x.derive_run != a.derive_run || x.derive_out != a.derive_out)));
+    if ambiguous {
+        o.count("attrs.list:not-judged:identical-derives-head-different-runs");
+    }
     if light {
-        o.push("corr", "attrs.list", format!("attrs.list {} {}", cfg, enc_list_req(rec, &hc.cfg, true)), enc_opt(&rec.out), desc.clone(), rec.attrs.len() > 1);
+        if !ambiguous {
+            o.push("corr", "attrs.list", format!("attrs.list {} {}", cfg, enc_list_req(rec, &hc.cfg, true)), enc_opt(&rec.out), desc.clone(), rec.attrs.len() > 1);
+        }
         if let Some(out) = &rec.out {
             o.push("oracle", "attrs.oracle.exact", format!("attrs.oracle.exact {} {} - - {}", cfg, plain, enc_str(out)), "ok".to_string(), desc.clone(), true);
         }
